@@ -19,88 +19,15 @@ mod interp;
 mod inventory;
 #[path = "../../core/src/walk.rs"]
 mod walk;
+mod scheduler;
 
 pub use caseparse::{Op, Opener, Pat};
 use caseparse::{build_clause, Toks};
 use interp::{esc, panic_text};
-use std::cell::Cell;
 use std::io::{BufRead, Write};
 use std::panic::{catch_unwind, AssertUnwindSafe};
-use std::sync::{Condvar, Mutex};
 use unimock::verif::sync as vsync;
 use unimock::*;
-
-struct Inner {
-    waiting: Vec<bool>,
-    done: Vec<bool>,
-    grant: Option<usize>,
-    running: Option<usize>,
-    trace: Vec<(usize, vsync::Op, usize)>,
-}
-
-static SCHED: Mutex<Option<Inner>> = Mutex::new(None);
-static CV: Condvar = Condvar::new();
-
-thread_local! {
-    static TID: Cell<Option<usize>> = const { Cell::new(None) };
-}
-
-fn hook(op: vsync::Op, addr: usize) {
-    let Some(tid) = TID.with(|t| t.get()) else { return };
-    let mut g = SCHED.lock().unwrap();
-    {
-        let inner = g.as_mut().expect("scheduler");
-        inner.waiting[tid] = true;
-        if inner.running == Some(tid) {
-            inner.running = None;
-        }
-    }
-    CV.notify_all();
-    loop {
-        if g.as_ref().unwrap().grant == Some(tid) {
-            break;
-        }
-        g = CV.wait(g).unwrap();
-    }
-    let inner = g.as_mut().unwrap();
-    inner.grant = None;
-    inner.waiting[tid] = false;
-    inner.trace.push((tid, op, addr));
-}
-
-fn thread_done(tid: usize) {
-    let mut g = SCHED.lock().unwrap();
-    let inner = g.as_mut().unwrap();
-    inner.done[tid] = true;
-    if inner.running == Some(tid) {
-        inner.running = None;
-    }
-    drop(g);
-    CV.notify_all();
-}
-
-fn quiescent(inner: &Inner) -> bool {
-    inner.running.is_none() && (0..inner.done.len()).all(|t| inner.done[t] || inner.waiting[t])
-}
-
-fn grant(tid: usize) {
-    let mut g = SCHED.lock().unwrap();
-    {
-        let inner = g.as_mut().unwrap();
-        if tid >= inner.done.len() || inner.done[tid] {
-            return;
-        }
-        inner.grant = Some(tid);
-        inner.running = Some(tid);
-    }
-    CV.notify_all();
-    loop {
-        g = CV.wait(g).unwrap();
-        if quiescent(g.as_ref().unwrap()) {
-            break;
-        }
-    }
-}
 
 fn do_call(u: &Unimock, m: u32, a: u8) -> String {
     use inventory::*;
@@ -163,13 +90,7 @@ fn run_case(line: &str, out: &mut impl Write) {
     };
     writeln!(out, "new:ok").unwrap();
 
-    *SCHED.lock().unwrap() = Some(Inner {
-        waiting: vec![false; nth],
-        done: vec![false; nth],
-        grant: None,
-        running: None,
-        trace: vec![],
-    });
+    scheduler::begin(nth);
     let outcomes: Vec<Vec<String>> = std::thread::scope(|s| {
         let handles: Vec<_> = threads
             .iter()
@@ -177,7 +98,7 @@ fn run_case(line: &str, out: &mut impl Write) {
             .map(|(tid, calls)| {
                 let u = original.clone();
                 s.spawn(move || {
-                    TID.with(|t| t.set(Some(tid)));
+                    scheduler::enter(tid);
                     let mut res = vec![];
                     for (m, a) in calls {
                         let r = catch_unwind(AssertUnwindSafe(|| do_call(&u, *m, *a)));
@@ -192,36 +113,16 @@ fn run_case(line: &str, out: &mut impl Write) {
                             Err(p) => format!("P:{}", esc(&panic_text(p))),
                         });
                     }
-                    TID.with(|t| t.set(None));
-                    thread_done(tid);
+                    scheduler::leave(tid);
                     drop(u);
                     res
                 })
             })
             .collect();
-        // wait until every thread is blocked at its first operation or has finished
-        {
-            let mut g = SCHED.lock().unwrap();
-            while !quiescent(g.as_ref().unwrap()) {
-                g = CV.wait(g).unwrap();
-            }
-        }
-        for tid in &schedule {
-            grant(*tid);
-        }
-        // completion: remaining threads in thread order
-        for tid in 0..nth {
-            loop {
-                let done = SCHED.lock().unwrap().as_ref().unwrap().done[tid];
-                if done {
-                    break;
-                }
-                grant(tid);
-            }
-        }
+        scheduler::drive(&schedule, nth);
         handles.into_iter().map(|h| h.join().expect("worker")).collect()
     });
-    let trace = SCHED.lock().unwrap().take().unwrap().trace;
+    let trace = scheduler::finish();
     for (tid, op, addr) in trace {
         writeln!(out, "t{tid} {op:?} {addr}").unwrap();
     }
@@ -237,7 +138,7 @@ fn run_case(line: &str, out: &mut impl Write) {
 
 fn main() {
     std::panic::set_hook(Box::new(|_| {}));
-    vsync::register(hook);
+    vsync::register(scheduler::hook);
     let args: Vec<String> = std::env::args().collect();
     let input: Box<dyn BufRead> = Box::new(std::io::BufReader::new(
         std::fs::File::open(&args[1]).expect("open case file"),
